@@ -370,6 +370,129 @@ def _r1_batch(ck, R1):
               "not added to the caller's dependencies)", br.where(s.anchor))
 
 
+# =================================================================================================
+# clean-up registered on an exit stack, read as the try/finally it is
+# =================================================================================================
+
+def _is_exit_stack(mod, call):
+    """`ExitStack()` / `contextlib.ExitStack()` with the name bound by the module's imports."""
+    if not (isinstance(call, ast.Call) and not call.args and not call.keywords):
+        return False
+    f = call.func
+    if isinstance(f, ast.Name):
+        return mod.imports.get(f.id) == "contextlib:ExitStack"
+    return isinstance(f, ast.Attribute) and f.attr == "ExitStack" and isinstance(f.value, ast.Name) and mod.imports.get(f.value.id) == "contextlib"
+
+
+def _own_walk(node):
+    """Nodes below `node`, not entering nested function / class / lambda bodies."""
+    stack = list(ast.iter_child_nodes(node))
+    while stack:
+        n = stack.pop()
+        yield n
+        if not isinstance(n, (ast.FunctionDef, ast.AsyncFunctionDef, ast.ClassDef, ast.Lambda)):
+            stack.extend(ast.iter_child_nodes(n))
+
+
+def deferred_written_out(ck, fi):
+    """`fi` with the clean-up calls it registers on a `contextlib.ExitStack` written as what they mean:
+
+        with ExitStack() as S:                 with ExitStack() as S:
+            A                                      A
+            S.callback(F, x, y)        ==>         x', y' = x, y
+            B                                      try: B
+                                                   finally: F(x', y')     (F's body, when F is a helper of this tree)
+
+    An exit stack runs its callbacks when the block is left, however it is left, last registered first, with the
+    arguments as they were at registration, and a callback cannot swallow the exception.  Only the plain form is
+    rewritten: S is bound by `with ExitStack() as S`, is used for nothing but `S.callback(<function>, ...)` statements
+    standing directly in that block; anything else (pop_all, enter_context, push, the stack handed on, a callback
+    registered under a condition) leaves the function as it is — the rules then see no clean-up at all and say so."""
+    import copy
+    from ..inline import Inliner, NotInlinable, _all_names
+    from ..loader import FuncInfo
+    mod = fi.module
+    withs = [w for w in _own_walk(fi.node) if isinstance(w, ast.With) and len(w.items) == 1 and _is_exit_stack(mod, w.items[0].context_expr)
+             and isinstance(w.items[0].optional_vars, ast.Name)]
+    if not withs:
+        return fi
+    node = copy.deepcopy(fi.node)
+    names = _all_names(node)
+    fresh = [0]
+    done = False
+    stores = {}
+    for n in _own_walk(node):
+        if isinstance(n, ast.Name) and isinstance(n.ctx, (ast.Store, ast.Del)):
+            stores[n.id] = stores.get(n.id, 0) + 1
+    for n in ast.walk(node):
+        if n is not node and isinstance(n, (ast.FunctionDef, ast.AsyncFunctionDef, ast.Lambda)):
+            for x in ast.walk(n):
+                if isinstance(x, ast.Nonlocal):
+                    for nm in x.names:
+                        stores[nm] = 2
+    for w in [w for w in _own_walk(node) if isinstance(w, ast.With) and len(w.items) == 1 and _is_exit_stack(mod, w.items[0].context_expr)
+              and isinstance(w.items[0].optional_vars, ast.Name)]:
+        S = w.items[0].optional_vars.id
+        regs = {}
+        for i, st in enumerate(w.body):
+            if isinstance(st, ast.Expr) and isinstance(st.value, ast.Call) and isinstance(st.value.func, ast.Attribute) and st.value.func.attr == "callback" \
+                    and isinstance(st.value.func.value, ast.Name) and st.value.func.value.id == S and st.value.args \
+                    and not any(isinstance(a, ast.Starred) for a in st.value.args) and not any(k.arg is None for k in st.value.keywords) \
+                    and isinstance(st.value.args[0], (ast.Name, ast.Attribute)):
+                regs[id(st.value.func.value)] = i
+        mentions = [n for n in _own_walk(node) if isinstance(n, ast.Name) and n.id == S]
+        nested_mentions = [n for f in _own_walk(node) if isinstance(f, (ast.FunctionDef, ast.AsyncFunctionDef, ast.Lambda)) for n in ast.walk(f) if isinstance(n, ast.Name) and n.id == S]
+        if not regs or nested_mentions or any(id(n) not in regs and n is not w.items[0].optional_vars for n in mentions):
+            continue
+        for i in sorted(regs.values(), reverse=True):
+            call = w.body[i].value
+            pre, actual = [], []
+            for a in list(call.args) + [k.value for k in call.keywords]:
+                if isinstance(a, ast.Name) and stores.get(a.id, 0) <= 1:
+                    # bound once: the name still stands for the registered value when the block is left
+                    pre.append(None)
+                    actual.append(a.id)
+                    continue
+                fresh[0] += 1
+                tmp = "deferred__d%d" % fresh[0]
+                while tmp in names:
+                    tmp += "_"
+                names.add(tmp)
+                pre.append(ast.copy_location(ast.Assign(targets=[ast.Name(id=tmp, ctx=ast.Store())], value=a), call))
+                actual.append(tmp)
+            fcall = ast.Call(func=ast.Name(id=actual[0], ctx=ast.Load()), args=[ast.Name(id=t, ctx=ast.Load()) for t in actual[1:len(call.args)]],
+                             keywords=[ast.keyword(arg=k.arg, value=ast.Name(id=t, ctx=ast.Load())) for k, t in zip(call.keywords, actual[len(call.args):])])
+            final = [ast.copy_location(ast.Expr(value=ast.copy_location(fcall, call)), call)]
+            # a helper of this tree is written out where it runs (its parameters stand for the values registered)
+            direct = copy.deepcopy(fcall)
+            direct.func = copy.deepcopy(call.args[0])
+            pre = [x for x in pre[1:] if x is not None]
+            try:
+                inl = Inliner(ck.repo)
+                r = inl.resolve(direct, fi)
+                if r is not None:
+                    final = inl.expand(direct, r[0], r[1], "drop", None, set(names), 0)
+                    names |= {n.id for x in final for n in ast.walk(x) if isinstance(n, ast.Name)}
+                else:
+                    final[0].value.func = direct.func
+            except NotInlinable:
+                final[0].value.func = direct.func
+            tr = ast.copy_location(ast.Try(body=w.body[i + 1:] or [ast.copy_location(ast.Pass(), call)], handlers=[], orelse=[], finalbody=final), w.body[i])
+            w.body[i:] = pre + [tr]
+            done = True
+    if not done:
+        return fi
+    ast.fix_missing_locations(node)
+    out = FuncInfo(fi.module, node, fi.qual, fi.cls, fi.parent)
+    out.nested = fi.nested
+    return out
+
+
+def run_local_fa(ck):
+    """memento_run_local as the frame rules read it (see deferred_written_out)."""
+    return FA(ck, deferred_written_out(ck, ck.fn(RL + ".memento_run_local")))
+
+
 class FrameScope:
     """Where memento_run_local keeps its frame on the stack.  Plain form: push_frame / pop_frame in the function
     itself (a try/finally).  Scoped form: `with C(...)` on a class of the same module whose __enter__ pushes a frame
@@ -439,7 +562,7 @@ class FrameScope:
 
 
 def _r1_run_local(ck, R1):
-    rl = FA(ck, RL + ".memento_run_local")
+    rl = run_local_fa(ck)
     sc = FrameScope(ck, rl)
     fa = sc.fa
     pop_nodes = fa.nodes_all(sc.pops)
@@ -517,7 +640,7 @@ def _r1_run_local(ck, R1):
 # =================================================================================================
 
 def _r2(ck, R2):
-    rl = FA(ck, RL + ".memento_run_local")
+    rl = run_local_fa(ck)
     sc = FrameScope(ck, rl)
     pushes = sc.pushes
     if not sc.scoped:
